@@ -63,6 +63,15 @@ CHECKS = {
          "satisfying that input's condition; the same after C >> merged for concrete states C; no location written by neither input appears.",
     note="Bound: <=2 writes per map; 6 valuations; pointer registers do not overlap. Flags may be unknown. Known finding: overlapping writes inside one input map (KNOWN_FINDINGS.json).",
     design="DESIGN.md section 3, C19"),
+ "C02": dict(
+    category="model_checking",
+    technique="bounded exhaustive enumeration of instruction sequences over automatically derived per-ISA alphabets x concrete start states x configurations; differential execution of the real code (symbolic map composed with the state vs step-by-step)",
+    text="Per ISA mode all length-1 programs over the spec-driven executable instructions and all length-2 (thorough: 3) programs over an alphabet with 2-3 instructions per footprint class "
+         "are run from several concrete states under every (noaliasing, memtrace) setting; every constant piece of every register of the module's register universe and every constant byte of a 16 KiB "
+         "memory window must agree between the two routes. States excluded by the no-aliasing assumption (distinct symbolic pointers overlapping) are filtered out.",
+    note="Bound: sequence length 2 (quick) / 3 (thorough) - the property states 1..8. No hand-written expected values: both routes are the real code. Runs where either route raises are C17's business. "
+         "Known findings per (ISA, mnemonics, location class) in KNOWN_FINDINGS.json.",
+    design="DESIGN.md section 3, C02"),
  "C03": dict(
     category="model_checking",
     technique="exhaustive enumeration of shipped specs and of a bounded synthetic format grammar x walking/all instruction words x endianness x tails, against an independent interpreter of the format language",
